@@ -75,6 +75,15 @@ def run(cx, out):
     for cfg in lib_cfgs(cx, quick=('D',), thorough=('A', 'B', 'D', 'E')):
         facts = cx.facts(cfg)
         unit(out, facts)
+        check_all(out, facts, cfg)
+        check_tracker(out, facts)
+        check_callgraph(out, facts)
+    from . import positive
+    positive.check(cx, out, 'C11')
+
+
+def check_all(out, facts, cfg, floors=True):
+    if True:
         heap_seen = set()
         n_fn = 0
         for f, kind in decoder_fns(facts):
@@ -119,6 +128,8 @@ def run(cx, out):
                 out.ob('R11.2', key + '/no-own-descend', not own_desc,
                        'decoder of a type that does not own its children on the heap calls descend_ref itself: '
                        'siblings/inline aggregates would consume depth', f['loc'])
+        if not floors:
+            return
         out.floor('R11.1', 'decoding functions analysed [%s]' % cfg, n_fn, 60)
         out.floor('R11.2', 'heap-owning decoders [%s]' % cfg, len(heap_seen), 9)
         # kernel: item path descends, bulk path does not decode generic children
@@ -139,8 +150,6 @@ def run(cx, out):
                    '; '.join(set(bad)) or 'no element decode found', kf['loc'])
         else:
             out.fail('R11.2', 'codec::decode_vec_from_items [%s]' % cfg, 'kernel function not found (anchor missing)', '-')
-        check_tracker(out, facts)
-        check_callgraph(out, facts)
 
 
 def _impl_params(facts, f):
